@@ -729,6 +729,114 @@ fn sbbf_run(a: &Args) -> SbbfRun {
     SbbfRun { nb0, nb1, b0, b1, ins0, ins1, pr0, pr1, rt }
 }
 
+
+// ------------------------------------------------------------------------------------------------
+// StatisticsConverter over several row groups of different sizes, queried with an arbitrary list of
+// row group indices (subset / other order / repeated), as after row-group pruning.
+//
+// op c07.convrg args:
+//   0 [row limit; write batch size]   1 validity   2 Int64 values   3 rows per row group (flush points)
+//   4 row_group_indices handed to the converter
+// observations:
+//   5 num_rows per row group   6 pages per row group   7 first_row_index of all pages, concatenated
+//   8 [status] 1 ok, 0 a converter call failed, -3 a converter call panicked
+//   9 data_page_row_counts (-1 null)   10 data_page_null_counts (-1 null)
+//   11,12 page mins (validity, values)   13,14 page maxes
+fn write_rg_file(a: &Args) -> Option<Bytes> {
+    let valid = to_bools(&a[1]);
+    let vals = to_i64s(&a[2]);
+    let sizes: Vec<usize> = a[3].iter().map(|x| x.to_usize().unwrap()).collect();
+    let schema = Arc::new(Schema::new(vec![Field::new("c", DataType::Int64, true)]));
+    let props = WriterProperties::builder()
+        .set_statistics_enabled(EnabledStatistics::Page)
+        .set_data_page_row_count_limit(a[0][0].to_usize().unwrap())
+        .set_write_batch_size(a[0][1].to_usize().unwrap())
+        .set_dictionary_enabled(false)
+        .build();
+    let mut out = Vec::new();
+    let mut w = ArrowWriter::try_new(&mut out, schema.clone(), Some(props)).ok()?;
+    let mut pos = 0;
+    for sz in sizes {
+        if sz == 0 { continue; }
+        let arr: ArrayRef = Arc::new(Int64Array::new(ScalarBuffer::from(vals[pos..pos + sz].to_vec()), nulls_of(&valid[pos..pos + sz])));
+        w.write(&RecordBatch::try_new(schema.clone(), vec![arr]).ok()?).ok()?;
+        w.flush().ok()?;
+        pos += sz;
+    }
+    w.close().ok()?;
+    Some(Bytes::from(out))
+}
+
+fn observe_convrg(a: &Args) -> Option<Args> {
+    let file = write_rg_file(a)?;
+    let armeta = ArrowReaderMetadata::load(&file, ArrowReaderOptions::new().with_page_index_policy(PageIndexPolicy::Required)).ok()?;
+    let meta = armeta.metadata().clone();
+    let nrg = meta.num_row_groups();
+    let idx: Vec<usize> = a[4].iter().map(|x| x.to_usize().unwrap()).collect();
+    if idx.iter().any(|i| *i >= nrg) { return None; }
+    let pi = meta.page_index()?;
+    let mut g: Args = vec![];
+    g.push((0..nrg).map(|i| BigInt::from(meta.row_group(i).num_rows())).collect());
+    let mut counts: Group = vec![]; let mut starts: Group = vec![];
+    for i in 0..nrg {
+        let oi = pi.offset_index(i, 0)?;
+        counts.push(oi.page_locations().len().into());
+        starts.extend(oi.page_locations().iter().map(|l| BigInt::from(l.first_row_index)));
+    }
+    g.push(counts); g.push(starts);
+    let schema = armeta.schema().clone();
+    let res = std::panic::catch_unwind(std::panic::AssertUnwindSafe(|| -> Option<Args> {
+        let conv = StatisticsConverter::try_new("c", &schema, meta.file_metadata().schema_descr()).ok()?;
+        let cnt = |a: &UInt64Array, i: usize| -> BigInt { if a.is_null(i) { (-1).into() } else { a.value(i).into() } };
+        let prc = conv.data_page_row_counts(pi, meta.row_groups(), idx.iter()).ok()??;
+        let pnc = conv.data_page_null_counts(pi, idx.iter()).ok()?;
+        let pmins = conv.data_page_mins(pi, idx.iter()).ok()?;
+        let pmaxs = conv.data_page_maxes(pi, idx.iter()).ok()?;
+        let vals = |arr: &ArrayRef| -> [Group; 2] {
+            let x = arr.as_primitive::<Int64Type>();
+            [gbools((0..x.len()).map(|i| x.is_valid(i))), (0..x.len()).map(|i| if x.is_valid(i) { BigInt::from(x.value(i)) } else { BigInt::from(0) }).collect()]
+        };
+        let mut o: Args = vec![vec![1.into()], (0..prc.len()).map(|i| cnt(&prc, i)).collect(), (0..pnc.len()).map(|i| cnt(&pnc, i)).collect()];
+        o.extend(vals(&pmins)); o.extend(vals(&pmaxs));
+        Some(o)
+    }));
+    match res {
+        Ok(Some(o)) => g.extend(o),
+        Ok(None) => { g.push(vec![0.into()]); for _ in 0..6 { g.push(vec![]); } }
+        Err(_) => { g.push(vec![(-3).into()]); for _ in 0..6 { g.push(vec![]); } }
+    }
+    Some(g)
+}
+
+const N_IN_RG: usize = 5;
+
+fn gen_convrg(r: &mut Rng, emit: &mut dyn FnMut(Case)) {
+    let nrg = 2 + r.below(4);
+    // row groups of different sizes
+    let mut sizes: Vec<usize> = (0..nrg).map(|_| 1 + r.below(40)).collect();
+    if sizes.iter().all(|s| *s == sizes[0]) { sizes[0] += 1 + r.below(5); }
+    let n: usize = sizes.iter().sum();
+    let valid = gen_valid(n, r);
+    let vals: Vec<i64> = (0..n).map(|_| r.range(-50, 50)).collect();
+    // indices: a non-identity selection (single later group, reversed, subset, shuffled, repeated) or the identity
+    let idx: Vec<usize> = match r.below(7) {
+        0 => (0..nrg).collect(),
+        1 => vec![1 + r.below(nrg - 1)],
+        2 => (0..nrg).rev().collect(),
+        3 => (0..nrg).filter(|_| r.bool()).collect(),
+        4 => { let mut v: Vec<usize> = (0..nrg).collect(); for i in (1..nrg).rev() { let j = r.below(i + 1); v.swap(i, j); } v }
+        5 => vec![nrg - 1, 0],
+        _ => (1..nrg).collect(),
+    };
+    let mut args: Args = vec![vec![(1 + r.below(12)).into(), (*r.pick(&[1usize, 2, 3, 5, 8, 1024])).into()], gbools(valid.iter().copied()),
+        gs(&vals), gs(&sizes), gs(&idx)];
+    let identity = idx.iter().enumerate().all(|(i, x)| i == *x);
+    if let Some(obs) = observe_convrg(&args) {
+        args.extend(obs);
+        emit(Case::new("c07.convrg", args, &["c07.convrg.spec"], format!("convrg g{} i{} id{}", nrg, idx.len().min(3), identity as u8)));
+    }
+}
+
 const N_IN: usize = 4;
 
 pub fn run(op: &str, a: &Args) -> Option<Args> {
@@ -751,6 +859,12 @@ pub fn run(op: &str, a: &Args) -> Option<Args> {
             let mut inp = Input::from_groups(a);
             match observe_conv(&mut inp) {
                 Some(obs) => { if obs[..] == a[N_IN..] { vec![g(1)] } else { vec![g(0)] } }
+                None => err(E_IO),
+            }
+        }
+        "c07.convrg" => {
+            match observe_convrg(a) {
+                Some(obs) => { if a.len() > N_IN_RG && obs[..] == a[N_IN_RG..] { vec![g(1)] } else { vec![g(0)] } }
                 None => err(E_IO),
             }
         }
@@ -1188,5 +1302,6 @@ pub fn generate(tier: &str, r: &mut Rng, emit: &mut dyn FnMut(Case)) {
         let btag = format!("bloom k{} ndv{} f{} n{}", kind, inp.ndv, inp.fpp_code, (inp.nrows() + 49) / 50);
         emit_bloom(&mut inp, emit, btag);
         if i % 8 == 0 { gen_sbbf(r, emit); }
+        if i % 8 == 2 { gen_convrg(r, emit); }
     }
 }
